@@ -1,0 +1,122 @@
+//go:build verif
+
+package home
+
+import (
+	"bytes"
+	"context"
+	"fmt"
+	"log/slog"
+	"net/http"
+	"time"
+
+	"github.com/AdguardTeam/AdGuardHome/internal/client"
+	"github.com/AdguardTeam/AdGuardHome/internal/filtering"
+	"github.com/AdguardTeam/AdGuardHome/internal/schedule"
+	"github.com/AdguardTeam/golibs/logutil/slogutil"
+	"gopkg.in/yaml.v3"
+)
+
+// This file is only compiled with the "verif" build tag.  It adds accessors
+// used by the external deterministic-simulation harness (property C18: the
+// blocked-services pause schedules across a restart and through the clients
+// HTTP API) and changes nothing in the shipped build.
+
+// verifSchedDisk is the part of the configuration file that carries
+// blocked-services schedules, with the types and tags of [configuration].
+type verifSchedDisk struct {
+	Filtering *filtering.Config `yaml:"filtering"`
+	Clients   *clientsConfig    `yaml:"clients"`
+}
+
+// VerifSchedWriteConfig returns the filtering and clients sections of the
+// configuration file as [configuration.write] generates them: the filtering
+// configuration as [filtering.DNSFilter.WriteDiskConfig] reports it, the
+// persistent clients of st as [clientsContainer.forConfig] collects them.
+func VerifSchedWriteConfig(flt *filtering.DNSFilter, st *client.Storage) (text []byte, err error) {
+	fc := &filtering.Config{}
+	flt.WriteDiskConfig(fc)
+
+	c := &clientsContainer{storage: st}
+	disk := &verifSchedDisk{
+		Filtering: fc,
+		Clients:   &clientsConfig{Persistent: c.forConfig()},
+	}
+
+	buf := &bytes.Buffer{}
+	enc := yaml.NewEncoder(buf)
+	enc.SetIndent(2)
+
+	err = enc.Encode(disk)
+	if err != nil {
+		return nil, fmt.Errorf("generating config file: %w", err)
+	}
+
+	return buf.Bytes(), nil
+}
+
+// VerifSchedLoadConfig decodes the text of a configuration file the way
+// parseConfig does in a freshly started process: [yaml.Unmarshal] over a
+// [configuration] that already holds the defaults of the package-level config
+// value (of which only those that concern blocked services are repeated here:
+// the global blocked services are pre-populated with an empty weekly schedule
+// and no ids), and converts the persistent clients the way
+// [clientsContainer.Init] does at start.  What it returns comes from text and
+// these defaults only.
+func VerifSchedLoadConfig(
+	ctx context.Context,
+	baseLogger *slog.Logger,
+	text []byte,
+) (flt *filtering.Config, clients []*client.Persistent, err error) {
+	cfg := &configuration{
+		Filtering: &filtering.Config{
+			BlockedServices: &filtering.BlockedServices{
+				Schedule: schedule.EmptyWeekly(),
+				IDs:      []string{},
+			},
+		},
+		Clients: &clientsConfig{
+			Sources: &clientSourcesConfig{},
+		},
+	}
+
+	err = yaml.Unmarshal(text, &cfg)
+	if err != nil {
+		// Don't wrap the error since it's informative enough as is.
+		return nil, nil, err
+	}
+
+	if cfg.Filtering == nil || cfg.Clients == nil {
+		return cfg.Filtering, nil, nil
+	}
+
+	cacheSize := cfg.Filtering.SafeSearchCacheSize
+	cacheTTL := time.Minute * time.Duration(cfg.Filtering.CacheTime)
+
+	clients = make([]*client.Persistent, 0, len(cfg.Clients.Persistent))
+	for i, o := range cfg.Clients.Persistent {
+		var p *client.Persistent
+		p, err = o.toPersistent(ctx, baseLogger, cacheSize, cacheTTL)
+		if err != nil {
+			return nil, nil, fmt.Errorf("init persistent client at index %d: %w", i, err)
+		}
+
+		clients = append(clients, p)
+	}
+
+	return cfg.Filtering, clients, nil
+}
+
+// VerifSchedClientsHandlers returns the real handlers of POST
+// /control/clients/add, /control/clients/update and /control/clients/delete,
+// bound to the given client storage.  They do not write the configuration
+// file.
+func VerifSchedClientsHandlers(st *client.Storage) (add, update, del http.HandlerFunc) {
+	c := &clientsContainer{
+		baseLogger: slogutil.NewDiscardLogger(),
+		storage:    st,
+		testing:    true,
+	}
+
+	return c.handleAddClient, c.handleUpdateClient, c.handleDelClient
+}
